@@ -613,6 +613,9 @@ pub fn judge_a(
                 Ok(Some(ra)) => {
                     if *ra == 0 {
                         fail(&["C11"], "null-frame", "null address reported as a frame".into(), s);
+                        if c.regs.mask != u64::MAX {
+                            fail(&["C16"], "signed-null-return-address-reported-as-a-frame", "the saved return address is null once the authentication bits are stripped: the unsigned stack ends here, the signed one reports a frame".into(), s);
+                        }
                     }
                     if ra & !c.regs.mask != 0 {
                         fail(&["C16"], "ra-unstripped", "returned address has bits outside the mask".into(), s);
